@@ -18,6 +18,10 @@ MAKERS = [
     ("runtime-fb", lambda r, m, kw: Feedback(label="rt", category="runtime", message=m, report=r, **kw), "runtime"),
     ("spec-ok", lambda r, m, kw: Feedback(label="ok", category="specification", message=m, correct=True, report=r, **kw), "specification"),
     ("syntax-bad", lambda r, m, kw: Feedback(label="syn", category="syntax", message=m, correct=False, report=r, **kw), "syntax"),
+    # feedback that declares the submission correct but sorts BEFORE the mistakes
+    ("top-ok", lambda r, m, kw: Feedback(label="top", category="instructor", priority="highest", message=m, correct=True, report=r, **kw), "instructor"),
+    ("set_correct-first", lambda r, m, kw: set_correct(report=r, priority="highest", **kw), "complete"),
+    ("style-bad", lambda r, m, kw: Feedback(label="sty", category="style", message=m, correct=False, report=r, **kw), "style"),
 ]
 NEGATIVE_CATS = ("syntax", "runtime", "algorithmic", "instructor", "specification")
 
@@ -56,7 +60,7 @@ def _run(idx, acts, mutes, msgs, sup_instr, sup_runtime, hide):
 
 
 def correct2(k0a: bool, k0b: bool, k0c: bool, a0: bool, mu0: bool, m0: str,
-             k1a: bool, k1b: bool, k1c: bool, a1: bool, mu1: bool, m1: str,
+             k1a: bool, k1b: bool, k1c: bool, k1d: bool, a1: bool, mu1: bool, m1: str,
              sup_instr: bool, sup_runtime: bool, hide: bool) -> bool:
     """
     Two feedback calls from the maker menu (first one fixed by the partition) in this order, each with symbolic
@@ -68,7 +72,9 @@ def correct2(k0a: bool, k0b: bool, k0c: bool, a0: bool, mu0: bool, m0: str,
     if tick():
         return True
     k0 = int(PART) if PART else bits(k0a, k0b, k0c)
-    k1 = bits(k1a, k1b, k1c)
+    k1 = bits(k1a, k1b, k1c, k1d)
+    if k0 >= len(MAKERS) or k1 >= len(MAKERS):
+        return True
     if excluded("C02.correct2", k0=k0, k1=k1, a0=a0, a1=a1, mu0=mu0, mu1=mu1, m0=m0, m1=m1):
         return True
     return _run([k0, k1], [a0, a1], [mu0, mu1], [m0, m1], sup_instr, sup_runtime, hide)
@@ -104,3 +110,25 @@ def correct_reach(a0: bool, a1: bool, mu1: bool) -> bool:
     gently("hint", report=r, activate=a1, **kw)
     final = simple.resolve(r)
     return not (a0 and a1 and not mu1 and final.correct is False)
+
+
+def correct_fields(x: int, y: int, sx: int, sy: int, by_category: bool, swap: bool) -> bool:
+    """
+    A triggered mistake with two fields and a suppression naming BOTH fields (by label, or by category + label; the two
+    fields in either order): the mistake is hidden - and the submission correct - exactly when both fields match.
+
+    pre: True
+    post: _
+    """
+    if tick():
+        return True
+    r = Report()
+    fb = Feedback(label="wrong_result", category="instructor", message="m", fields={"function": x, "case": y}, report=r)
+    wanted = {"case": sy, "function": sx} if swap else {"function": sx, "case": sy}
+    if by_category:
+        r.suppress("instructor", "wrong_result", wanted)
+    else:
+        r.suppress(None, "wrong_result", wanted)
+    final = simple.resolve(r)
+    hidden = (x == sx and y == sy)
+    return final.correct is hidden and (final.label == "wrong_result") == (not hidden)
